@@ -16,22 +16,22 @@ theorem nft_all_translated : Irismod.Gen.PureNft.untranslated = [] := rfl
 theorem nft_translated_pinned : Irismod.Gen.PureNft.translated =
     ["Modified(target)",
      "Modify(origin,target)",
-     "UpdateNFT_token_Uri_1(token_Uri,tokenURI)",
-     "UpdateNFT_token_UriHash_1(token_UriHash,tokenURIHash)",
-     "UpdateNFT_nftMetadata_Name_1(nftMetadata_Name,tokenNm)",
-     "UpdateNFT_nftMetadata_Data_1(nftMetadata_Data,tokenData)",
      "UpdateNFT_guard_1(denom_UpdateRestricted)",
      "UpdateNFT_cond_2(tokenURI,tokenURIHash,tokenNm,tokenData)",
+     "UpdateNFT_token_Uri_1(token_Uri,tokenURI)",
+     "UpdateNFT_token_UriHash_1(token_UriHash,tokenURIHash)",
      "UpdateNFT_cond_3(tokenNm,tokenData)",
+     "UpdateNFT_nftMetadata_Name_1(nftMetadata_Name,tokenNm)",
+     "UpdateNFT_nftMetadata_Data_1(nftMetadata_Data,tokenData)",
      "TransferOwnership_tokenChanged_1(tokenURI,tokenURIHash)",
      "TransferOwnership_tokenMetadataChanged_1(tokenNm,tokenData)",
-     "TransferOwnership_token_Uri_1(token_Uri,tokenURI)",
-     "TransferOwnership_token_UriHash_1(token_UriHash,tokenURIHash)",
-     "TransferOwnership_nftMetadata_Name_1(nftMetadata_Name,tokenNm)",
-     "TransferOwnership_nftMetadata_Data_1(nftMetadata_Data,tokenData)",
      "TransferOwnership_guard_1(denom_UpdateRestricted,tokenChanged,tokenMetadataChanged)",
      "TransferOwnership_guard_2(tokenChanged,tokenMetadataChanged)",
+     "TransferOwnership_token_Uri_1(token_Uri,tokenURI)",
+     "TransferOwnership_token_UriHash_1(token_UriHash,tokenURIHash)",
      "TransferOwnership_cond_3(tokenMetadataChanged)",
+     "TransferOwnership_nftMetadata_Name_1(nftMetadata_Name,tokenNm)",
+     "TransferOwnership_nftMetadata_Data_1(nftMetadata_Data,tokenData)",
      "MintNFT_guard_1(denom_MintRestricted,denom_Creator,read_sender_String)",
      "TransferDenomOwner_guard_1(read_srcOwner_String,denom_Creator)",
      "Authorize_guard_1(read_owner_Equals_k_nk_GetOwner_ctx_denomID_tokenID)"] := rfl
